@@ -934,3 +934,99 @@ Section WithRegex.
     apply (observe_loaded re_search _ nm n). apply load_rule_lines; [assumption | exact L | apply tags_of_cases | exact U].
   Qed.
 End WithRegex.
+
+(* ================================================================== the suggestion appended to an existing rules file *)
+Lemma parse_header_gen cur done nm :
+  has_nonws nm = true ->
+  parse_line cur done (String (chr 91) (nm ++ "]")) = flush cur done (fun done' => SOk (Some (new_rule (strip nm))) done').
+Proof.
+  intros H. unfold parse_line.
+  change "]" with (s1 (chr 93)).
+  rewrite (strip_id (chr 91) nm (chr 93)) by reflexivity.
+  cbn [is_empty starts_with_c orb andb].
+  change (N.eqb (cn (chr 91)) 35) with false. change (N.eqb (cn (chr 91)) 91) with true.
+  cbn [orb andb]. unfold ends_with_c.
+  change (String (chr 91) (nm ++ s1 (chr 93))) with (String (chr 91) nm ++ s1 (chr 93)).
+  rewrite last_char_app. change (N.eqb (cn (chr 93)) 93) with true. cbv iota.
+  rewrite slen_app. cbn [String.length s1 drop].
+  replace (S (String.length nm) + 1 - 2) with (String.length nm) by lia.
+  change (String (chr 91) nm ++ s1 (chr 93)) with (String (chr 91) (nm ++ s1 (chr 93))). cbv iota. rewrite take_app_exact.
+  now rewrite (strip_nonempty nm H).
+Qed.
+
+Lemma rule_tail done nm body n tags :
+  (tags = [] \/ tags = ["refund"]) -> unesc UN (body ++ String DQ ")") = UOk n ")" ->
+  parse_lines (Some (new_rule (strip nm))) done
+    (("match: contains(" ++ String DQ (body ++ s1 DQ) ++ ")") :: "category: CATEGORY" :: "subcategory: SUBCATEGORY" ::
+     match tags with [] => [] | _ => ["tags: " ++ sconcat ", " tags] end)
+  = Loaded (done ++ [the_rule nm n])%list.
+Proof.
+  intros Ht Hu.
+  assert (P : forall tl, parse_lines (Some (new_rule (strip nm))) done
+     (("match: contains(" ++ String DQ (body ++ s1 DQ) ++ ")") :: "category: CATEGORY" :: "subcategory: SUBCATEGORY" :: tl)
+     = parse_lines (Some {| r_name := strip nm; r_match := Some ("contains(" ++ String DQ (body ++ s1 DQ) ++ ")");
+                           r_category := Some "CATEGORY"; r_subcategory := Some "SUBCATEGORY"; r_merchant := None; r_tags := None |}) done tl).
+  { intros tl. cbn [parse_lines]. rewrite parse_match_line. cbv beta iota.
+    rewrite (parse_const_line _ _ "category: CATEGORY" "category" "CATEGORY") with (i := 8) by reflexivity.
+    unfold dispatch at 1. cbn [String.eqb Ascii.eqb Bool.eqb]. cbv beta iota.
+    rewrite (parse_const_line _ _ "subcategory: SUBCATEGORY" "subcategory" "SUBCATEGORY") with (i := 11) by reflexivity.
+    unfold dispatch at 1. cbn [String.eqb Ascii.eqb Bool.eqb]. cbv beta iota.
+    reflexivity. }
+  destruct Ht as [-> | ->].
+  - rewrite P. cbn [parse_lines flush]. unfold add_rule. cbn [r_match r_category is_empty negb r_tags].
+    rewrite (parse_expr_contains body n Hu). reflexivity.
+  - rewrite P. cbn [parse_lines].
+    rewrite (parse_const_line _ _ ("tags: " ++ sconcat ", " ["refund"]) "tags" "refund") with (i := 4) by reflexivity.
+    unfold dispatch at 1. cbn [String.eqb Ascii.eqb Bool.eqb]. cbv beta iota. cbn [parse_lines flush]. unfold add_rule. cbn [r_match r_category is_empty negb r_tags].
+    rewrite (parse_expr_contains body n Hu). reflexivity.
+Qed.
+
+Lemma cons_first_app c (l m : list string) : l <> [] -> cons_first c (l ++ m)%list = (cons_first c l ++ m)%list.
+Proof. destruct l; [congruence | reflexivity]. Qed.
+Lemma split_lf_nonnil s : split_lf s <> [].
+Proof. destruct s as [|c r]; cbn [split_lf]; [discriminate|]. destruct (is_lf c); [discriminate|]. destruct (split_lf r); discriminate. Qed.
+Lemma split_lf_app_gen a b : split_lf (a ++ String LF b) = (split_lf a ++ split_lf b)%list.
+Proof.
+  induction a as [|c r IH]; [reflexivity|]. cbn [append split_lf]. rewrite IH.
+  destruct (is_lf c); [reflexivity|]. apply cons_first_app, split_lf_nonnil.
+Qed.
+
+Lemma parse_lines_app ls1 : forall cur done rs1 nm tl,
+  parse_lines cur done ls1 = Loaded rs1 -> has_nonws nm = true ->
+  parse_lines cur done (ls1 ++ String (chr 91) (nm ++ "]") :: tl)%list = parse_lines (Some (new_rule (strip nm))) rs1 tl.
+Proof.
+  induction ls1 as [|l ls1 IH]; intros cur done rs1 nm tl H Hn.
+  - cbn [app parse_lines] in *. rewrite (parse_header_gen cur done nm Hn).
+    destruct cur as [rd|]; cbn [flush] in *.
+    + destruct (add_rule rd); try discriminate. now injection H as <-.
+    + now injection H as <-.
+  - cbn [app parse_lines] in *. destruct (parse_line cur done l) as [c' d'| |]; try discriminate. now apply IH.
+Qed.
+
+Theorem appended_fixed existing rs d neg :
+  parse_merchants existing = Loaded rs ->
+  exists text, suggested_rule Fixed d (tags_of neg) = Some text /\
+    parse_merchants (existing ++ String LF text) = Loaded (rs ++ [rule_of d])%list.
+Proof.
+  intros He. unfold suggested_rule, needle_of, rule_of.
+  destruct (merchant_name_ok d) as [nm [-> Hnm]]. destruct (needle_fixed_ok d) as [n [-> Hn]].
+  eexists; split; [reflexivity|]. cbn [odflt]. unfold nm_ok in Hnm. apply andb_true_iff in Hnm as [Hn1 Hn2].
+  unfold parse_merchants in *. rewrite split_lf_app_gen.
+  unfold rule_text, quote, quote_fixed. rewrite split_lf_sconcat.
+  2:{ unfold rule_lines. destruct (tags_of neg); discriminate. }
+  2:{ assert (L1 : no_lf (String (chr 91) (nm ++ "]")) = true).
+      { unfold no_lf in *. cbn [allb]. rewrite allb_app, Hn1. reflexivity. }
+      assert (L2 : no_lf ("match: contains(" ++ String DQ (cmap json_char n ++ s1 DQ) ++ ")") = true).
+      { unfold no_lf. rewrite !allb_app. cbn [allb]. rewrite !allb_app. fold (no_lf (cmap json_char n)). rewrite json_no_lf. reflexivity. }
+      unfold rule_lines. destruct neg; cbn [tags_of app forallb]; rewrite L1, L2; reflexivity. }
+  unfold rule_lines. cbn [app]. rewrite (parse_lines_app _ None [] rs nm _ He Hn2).
+  apply rule_tail; [apply tags_of_cases | apply json_roundtrip].
+Qed.
+
+(* ================================================================== the tree under test has the repaired design (since /repo f2d3c2b) *)
+Lemma source_is_fixed : C19Src.variant_of_source = Fixed.
+Proof. reflexivity. Qed.
+Lemma matches_source : matches_statement C19Src.variant_of_source.
+Proof. rewrite source_is_fixed. exact matches_fixed. Qed.
+Lemma loads_source : loads_statement C19Src.variant_of_source.
+Proof. rewrite source_is_fixed. exact loads_fixed. Qed.
